@@ -96,12 +96,24 @@ func buildAny(gr *gfam.Grammar, lv lexVariant, k int) (*participle.Parser[any], 
 	if len(lv.elide) > 0 {
 		opts = append(opts, participle.Elide(lv.elide...))
 	}
+	slotSeen := map[int]bool{}
 	for _, u := range gr.Root.Unions() {
-		var ms []g.U0
+		if slotSeen[u.UnionSlot] {
+			continue // one Union option per interface type, however often the union is referenced
+		}
+		slotSeen[u.UnionSlot] = true
+		var ms []any
 		for _, m := range u.Members {
 			ms = append(ms, reflect.New(tc.GoType(m)).Elem().Interface())
 		}
-		opts = append(opts, participle.Union[g.U0](ms...)) // only slot 0 is used by this engine's recursive grammars
+		switch u.UnionSlot {
+		case 0:
+			opts = append(opts, participle.Union[g.U0](toU[g.U0](ms)...))
+		case 1:
+			opts = append(opts, participle.Union[g.U1](toU[g.U1](ms)...))
+		default:
+			opts = append(opts, participle.Union[g.U2](toU[g.U2](ms)...))
+		}
 	}
 	var p *participle.Parser[any]
 	var err error
@@ -110,6 +122,14 @@ func buildAny(gr *gfam.Grammar, lv lexVariant, k int) (*participle.Parser[any], 
 		return nil, nil, msg
 	}
 	return p, err, ""
+}
+
+func toU[T any](ms []any) []T {
+	out := make([]T, len(ms))
+	for i, m := range ms {
+		out[i] = m.(T)
+	}
+	return out
 }
 
 func usesOnlyCommonTypes(gr *gfam.Grammar) bool {
